@@ -18,7 +18,7 @@ pub struct ScenarioStats {
 /// (failing clause, description, replay data)
 pub type ScenarioFailure = (String, String, Value);
 
-fn mk_block(h: &mut Hist, parent: &Hash, coins: &[Coin], difficulty: u64, tag: &str) -> GenBlock {
+pub fn mk_block(h: &mut Hist, parent: &Hash, coins: &[Coin], difficulty: u64, tag: &str) -> GenBlock {
 	let txs = if coins.is_empty() {
 		vec![]
 	} else {
@@ -179,3 +179,95 @@ pub fn compaction_reorg_scenario(seed: u64, depth: usize, dir: &str) -> Result<S
 	let _ = std::fs::remove_dir_all(dir);
 	Ok(stats)
 }
+
+/// A trunk of `n_blocks` blocks each (from height 5) spending the coinbase of 4 blocks earlier into
+/// `outs_per_tx` outputs, all proofs built in parallel: 1 + 4 + (outs_per_tx + 1) * (n - 4) outputs, i.e. 107
+/// blocks with 9 outputs per transaction span two 1024-bit chunks of the output bitmap.
+pub fn build_multi_chunk_trunk(seed: u64, n_blocks: u64, outs_per_tx: usize) -> Hist {
+	use std::collections::HashMap;
+	use std::sync::atomic::{AtomicU64, Ordering};
+	use grin_core::core::{KernelFeatures, Transaction};
+	use crate::world::{fee_fields, init_thread};
+	#[allow(non_snake_case)]
+	let OUTS_PER_TX = outs_per_tx;
+	let mut h = Hist::new(seed, false);
+	let w = h.world.clone();
+	let reward = grin_core::consensus::REWARD;
+	// plan
+	let fee_of = |i: u64| -> u64 { if i >= 5 { 1_000_000 * (1 + (i % 3)) } else { 0 } };
+	let cb_key = |i: u64| w.key(10_000 + i as u32);
+	let out_key = |i: u64, j: usize| w.key(100_000 + (i as u32) * 16 + j as u32);
+	let next = AtomicU64::new(1);
+	let built = std::sync::Mutex::new(HashMap::<u64, (Option<Transaction>, (grin_core::core::Output, grin_core::core::TxKernel))>::new());
+	std::thread::scope(|s| {
+		for _ in 0..16 {
+			s.spawn(|| {
+				init_thread(true);
+				loop {
+					let i = next.fetch_add(1, Ordering::SeqCst);
+					if i > n_blocks {
+						break;
+					}
+					let mut p = Prng::new(seed ^ (i.wrapping_mul(0x9E3779B97F4A7C15)));
+					let tx = if i >= 5 {
+						let src = i - 4;
+						let inp = w.coin(reward + fee_of(src), &cb_key(src), true);
+						let fee = fee_of(i);
+						let total = inp.value - fee;
+						let each = total / OUTS_PER_TX as u64;
+						let mut outs = vec![];
+						let mut left = total;
+						for j in 0..OUTS_PER_TX {
+							let v = if j + 1 == OUTS_PER_TX { left } else { each };
+							left -= v;
+							outs.push((v, out_key(i, j)));
+						}
+						Some(w.tx(&mut p, &[inp], &outs, KernelFeatures::Plain { fee: fee_fields(fee) }).0)
+					} else {
+						None
+					};
+					let cb = w.coinbase(&cb_key(i), fee_of(i));
+					built.lock().unwrap().insert(i, (tx, cb));
+				}
+			});
+		}
+	});
+	let mut built = built.into_inner().unwrap();
+	let mut tip = h.genesis.hash();
+	let mut p = Prng::new(seed ^ 0x7121);
+	for i in 1..=n_blocks {
+		let (tx, cb) = built.remove(&i).unwrap();
+		let txs: Vec<Transaction> = tx.into_iter().collect();
+		let b = h
+			.ledger
+			.make_block_with_reward(&mut p, &tip, &txs, cb, PowMode::Skip { difficulty: 10 }, 60)
+			.expect("trunk block");
+		// register coins
+		let cbc = w.coin(reward + fee_of(i), &cb_key(i), true);
+		h.coins.insert(cbc.commit.0.to_vec(), cbc);
+		if i >= 5 {
+			let src = i - 4;
+			let total = reward + fee_of(src) - fee_of(i);
+			let each = total / OUTS_PER_TX as u64;
+			let mut left = total;
+			for j in 0..OUTS_PER_TX {
+				let v = if j + 1 == OUTS_PER_TX { left } else { each };
+				left -= v;
+				let c = w.coin(v, &out_key(i, j), false);
+				h.coins.insert(c.commit.0.to_vec(), c);
+			}
+		}
+		tip = b.hash();
+		h.blocks.push(GenBlock {
+			hash: tip,
+			parent: b.header.prev_hash,
+			block: b,
+			verdict: Ok(()),
+			class: "honest".into(),
+			tags: vec![],
+		});
+	}
+	h.next_key = 2_000_000;
+	h
+}
+
